@@ -6,6 +6,12 @@ QPairs == { p \in BoundaryDays \X BoundaryDays : p[1] < p[2] /\ p[2] - p[1] < 12
 TPairs == { p \in BoundaryDays \X BoundaryDays : p[1] < p[2] }
 QTimePairs == { <<13, 0, 15, 30>>, <<13, 0, 13, 1>>, <<9, 5, 23, 59>>, <<15, 0, 17, 30>>, <<0, 30, 11, 59>>, <<14, 15, 22, 45>>, <<1, 0, 3, 0>> }
 TTimePairs == QTimePairs \cup { <<h1, m, h2, 59 - m>> : h1 \in {0, 9, 13}, h2 \in {14, 20, 23}, m \in {0, 29} }
+D0 == Ordinal(2018, 1, 5)
+(* calibration: both endpoints on the same day are read as a date plus a time range (two entities); the statement
+   speaks of endpoints that are dates or clock times, so date-time pairs are generated on different days only *)
+QDTPairs == { <<D0, 15, 0, D0 + k, h2, m2>> : k \in {1, 2, 3}, h2 \in {15, 18}, m2 \in {0, 20} }
+TDTPairs == QDTPairs \cup { <<Ordinal(2019, 12, 31), 23, 0, Ordinal(2020, 1, 1) + k, 13, m2>> : k \in {0, 1, 59}, m2 \in {0, 1, 59} }
+            \cup { <<Ordinal(2020, 2, 28), 13, 30, Ordinal(2020, 3, 1), 13, m2>> : m2 \in {29, 30, 31} }
 AllCases == TLCEval(Cases)
 VARIABLES c, pc
 vars == <<c, pc>>
